@@ -294,23 +294,27 @@ class MemStream(Stream):
 
 
 # ---------------------------------------------------------------- connection pairs
-def make_pair(svc_a, svc_b, cfg_a=None, cfg_b=None, held=False, waiter=None, fault=None, compress=True):
-    """two real Connections joined by a Net. Nothing is served yet."""
+def make_pair(svc_a, svc_b, cfg_a=None, cfg_b=None, held=False, waiter=None, fault=None, compress=True, epipe=False):
+    """two real Connections joined by a Net. Nothing is served yet (services must not talk in on_connect)."""
     from rpyc.core.channel import Channel
-    net = Net(waiter=waiter, held=held, fault=fault)
-    ca = svc_a._connect(Channel(net.a, compress), dict(cfg_a or {}))
+    net = Net(waiter=waiter, held=held, fault=fault, epipe=epipe)
     cb = svc_b._connect(Channel(net.b, compress), dict(cfg_b or {}))
+    ca = svc_a._connect(Channel(net.a, compress), dict(cfg_a or {}))
     return net, ca, cb
 
 
 class ServedPair(object):
-    """A drives; B is served by a daemon thread running the real serve_all()"""
+    """A drives; B is served by a daemon thread running the real serve_all() (started before A connects,
+    so A's service may talk to B from on_connect, as MasterService does)"""
 
-    def __init__(self, svc_a, svc_b, cfg_a=None, cfg_b=None, fault=None, compress=True):
-        self.net, self.a, self.b = make_pair(svc_a, svc_b, cfg_a, cfg_b, fault=fault, compress=compress)
+    def __init__(self, svc_a, svc_b, cfg_a=None, cfg_b=None, fault=None, compress=True, epipe=False, hard_limit=20.0):
+        from rpyc.core.channel import Channel
+        self.net = Net(waiter=ThreadWaiter(hard_limit), fault=fault, epipe=epipe)
+        self.b = svc_b._connect(Channel(self.net.b, compress), dict(cfg_b or {}))
         self.server_exc = None
         self.thread = threading.Thread(target=self._serve, daemon=True)
         self.thread.start()
+        self.a = svc_a._connect(Channel(self.net.a, compress), dict(cfg_a or {}))
 
     def _serve(self):
         try:
